@@ -568,6 +568,9 @@ Section Memo.
   Variable n : nat.
   Hypothesis vals_ok : forall i, (i < n)%nat -> P (nth i vals []).
 
+  (** task holds the permit *)
+  Definition holds (p : pc) : bool := match p with PComputing | PComputed _ => true | _ => false end.
+
   Definition pc_ok (cell : option bytes) (p : pc) : Prop :=
     match p with
     | PStart | PComputing => True
@@ -578,38 +581,115 @@ Section Memo.
   Definition memo_inv (st : mstate) : Prop :=
     (forall b, m_cell st = Some b -> P b) /\
     (forall i p, nth_error (m_pcs st) i = Some p -> pc_ok (m_cell st) p) /\
-    length (m_pcs st) = n.
+    length (m_pcs st) = n /\
+    (* the permit: held by exactly the one task that is compressing, and only while the cell is empty *)
+    (forall i p, nth_error (m_pcs st) i = Some p -> holds p = true -> m_lock st = true /\ m_cell st = None) /\
+    (forall i j p q, nth_error (m_pcs st) i = Some p -> nth_error (m_pcs st) j = Some q ->
+                     holds p = true -> holds q = true -> i = j) /\
+    (m_lock st = true -> exists i p, nth_error (m_pcs st) i = Some p /\ holds p = true).
 
   Lemma pc_ok_mono cell cell' p : (cell <> None -> cell' <> None) -> pc_ok cell p -> pc_ok cell' p.
   Proof. destruct p; cbn; auto. Qed.
 
-  Lemma inv_set st i p cell' :
-    memo_inv st -> (i < n)%nat ->
-    (forall b, cell' = Some b -> P b) -> (m_cell st <> None -> cell' <> None) -> pc_ok cell' p ->
-    memo_inv (mkM cell' (set_nth i p (m_pcs st))).
+  Lemma nth_set_cases {A} i j (v : A) l q :
+    nth_error (set_nth i v l) j = Some q -> (i < length l)%nat ->
+    (i = j /\ q = v) \/ (i <> j /\ nth_error l j = Some q).
   Proof.
-    intros [H1 [H2 H3]] Hi Hc Hm Hp. split; [exact Hc|]. split; cbn [m_cell m_pcs].
-    - intros j q Hj. destruct (Nat.eq_dec i j) as [<-|Hne].
-      + rewrite nth_error_set_nth_eq in Hj by lia. inversion Hj; subst. assumption.
-      + rewrite nth_error_set_nth_neq in Hj by assumption. eapply pc_ok_mono; [exact Hm|]. eapply H2; eassumption.
-    - rewrite set_nth_length. assumption.
+    intros H Hi. destruct (Nat.eq_dec i j) as [<-|Hne].
+    - rewrite nth_error_set_nth_eq in H by assumption. inversion H. auto.
+    - rewrite nth_error_set_nth_neq in H by assumption. auto.
   Qed.
 
   Lemma mstep_inv st i st' : memo_inv st -> mstep vals st i = Some st' -> memo_inv st'.
   Proof.
-    intros Hinv Hs. pose proof Hinv as [H1 [H2 H3]]. unfold mstep in Hs.
+    intros Hinv Hs. pose proof Hinv as [H1 [H2 [H3 [H4 [H5 H6]]]]]. unfold mstep in Hs.
     destruct (nth_error (m_pcs st) i) as [p|] eqn:Hp; [|discriminate].
-    assert (Hi : (i < n)%nat) by (rewrite <- H3; apply nth_error_Some; congruence).
+    assert (Hi : (i < length (m_pcs st))%nat) by (apply nth_error_Some; congruence).
     pose proof (H2 _ _ Hp) as Hok.
-    destruct p as [| |buf| |r]; inversion Hs; subst; clear Hs.
-    - apply inv_set; auto. destruct (m_cell st); cbn; try discriminate; exact I.
-    - apply inv_set; auto. cbn. apply vals_ok. assumption.
-    - cbn in Hok. apply inv_set; auto.
-      + intros b Hb. destruct (m_cell st) as [b0|] eqn:Hc; inversion Hb; subst; auto.
-      + intros _. destruct (m_cell st); discriminate.
-      + cbn. destruct (m_cell st); discriminate.
-    - cbn in Hok. apply inv_set; auto. cbn. destruct (m_cell st) as [b|] eqn:Hc; [|congruence].
-      exists b. split; [reflexivity|]. apply H1. reflexivity.
+    destruct p as [| |buf| |r].
+    - (* PStart *)
+      destruct (m_cell st) as [b0|] eqn:Hc.
+      + (* fast path *)
+        inversion Hs; subst st'; clear Hs. unfold memo_inv; cbn [m_cell m_lock m_pcs]. rewrite set_nth_length.
+        split; [exact H1|]. split.
+        { intros j q Hq. apply nth_set_cases in Hq as [[<- ->]|[Hne Hq]]; [|exact (H2 _ _ Hq)|assumption].
+          cbn. discriminate. }
+        split; [assumption|]. split.
+        { intros j q Hq Hh. apply nth_set_cases in Hq as [[<- ->]|[Hne Hq]]; [discriminate| |assumption].
+          destruct (H4 _ _ Hq Hh) as [_ Hx]. discriminate. }
+        split.
+        { intros j k q q' Hq Hq' Hh Hh'.
+          apply nth_set_cases in Hq as [[<- ->]|[Hne Hq]]; [discriminate| |assumption].
+          apply nth_set_cases in Hq' as [[<- ->]|[Hne' Hq']]; [discriminate| |assumption].
+          eapply H5; eassumption. }
+        { intros Hl. destruct (H6 Hl) as [j [q [Hq Hh]]]. destruct (H4 _ _ Hq Hh) as [_ Hx]. discriminate. }
+      + destruct (m_lock st) eqn:Hl; [discriminate|].
+        inversion Hs; subst st'; clear Hs. unfold memo_inv; cbn [m_cell m_lock m_pcs]. rewrite set_nth_length.
+        assert (Hnone : forall j q, nth_error (m_pcs st) j = Some q -> holds q = false).
+        { intros j q Hq. destruct (holds q) eqn:Hh; [|reflexivity]. destruct (H4 _ _ Hq Hh). discriminate. }
+        split; [exact H1|]. split.
+        { intros j q Hq. apply nth_set_cases in Hq as [[<- ->]|[Hne Hq]]; [exact I|exact (H2 _ _ Hq)|assumption]. }
+        split; [assumption|]. split.
+        { intros j q Hq Hh. auto. }
+        split.
+        { intros j k q q' Hq Hq' Hh Hh'.
+          apply nth_set_cases in Hq as [[<- ->]|[Hne Hq]]; [| |assumption];
+            apply nth_set_cases in Hq' as [[<- ->]|[Hne' Hq']]; try assumption; try reflexivity.
+          - rewrite (Hnone _ _ Hq') in Hh'. discriminate.
+          - rewrite (Hnone _ _ Hq) in Hh. discriminate.
+          - rewrite (Hnone _ _ Hq) in Hh. discriminate. }
+        { intros _. exists i, PComputing. split; [apply nth_error_set_nth_eq; assumption|reflexivity]. }
+    - (* PComputing *)
+      inversion Hs; subst st'; clear Hs. unfold memo_inv; cbn [m_cell m_lock m_pcs]. rewrite set_nth_length.
+      destruct (H4 _ _ Hp eq_refl) as [Hl Hc].
+      split; [assumption|]. split.
+      { intros j q Hq. apply nth_set_cases in Hq as [[<- ->]|[Hne Hq]]; [| |assumption].
+        - cbn. apply vals_ok. rewrite <- H3. assumption.
+        - apply H2 with j. assumption. }
+      split; [assumption|]. split.
+      { intros j q Hq Hh. auto. }
+      split.
+      { intros j k q q' Hq Hq' Hh Hh'.
+        apply nth_set_cases in Hq as [[<- ->]|[Hne Hq]]; [| |assumption];
+          apply nth_set_cases in Hq' as [[<- ->]|[Hne' Hq']]; try assumption; try reflexivity.
+        - eapply H5; [exact Hp|exact Hq'|reflexivity|assumption].
+        - eapply H5; [exact Hq|exact Hp|assumption|reflexivity].
+        - eapply H5; eassumption. }
+      { intros _. exists i, (PComputed (nth i vals [])). split; [apply nth_error_set_nth_eq; assumption|reflexivity]. }
+    - (* PComputed: the value is stored, the permit given up *)
+      inversion Hs; subst st'; clear Hs. unfold memo_inv; cbn [m_cell m_lock m_pcs]. rewrite set_nth_length.
+      cbn in Hok.
+      assert (Hnone : forall j q, j <> i -> nth_error (m_pcs st) j = Some q -> holds q = false).
+      { intros j q Hne Hq. destruct (holds q) eqn:Hh; [|reflexivity]. exfalso. apply Hne.
+        eapply H5; [exact Hq|exact Hp|assumption|reflexivity]. }
+      split; [intros b Hb; inversion Hb; subst; assumption|]. split.
+      { intros j q Hq. apply nth_set_cases in Hq as [[<- ->]|[Hne Hq]]; [cbn; discriminate| |assumption].
+        eapply pc_ok_mono; [|eapply H2; eassumption]. intros _. discriminate. }
+      split; [assumption|]. split.
+      { intros j q Hq Hh. apply nth_set_cases in Hq as [[<- ->]|[Hne Hq]]; [discriminate| |assumption].
+        rewrite (Hnone j q) in Hh by auto. discriminate. }
+      split.
+      { intros j k q q' Hq Hq' Hh Hh'.
+        apply nth_set_cases in Hq as [[<- ->]|[Hne Hq]]; [discriminate| |assumption].
+        rewrite (Hnone j q) in Hh by auto. discriminate. }
+      { discriminate. }
+    - (* PRet *)
+      inversion Hs; subst st'; clear Hs. unfold memo_inv; cbn [m_cell m_lock m_pcs]. rewrite set_nth_length.
+      cbn in Hok.
+      split; [assumption|]. split.
+      { intros j q Hq. apply nth_set_cases in Hq as [[<- ->]|[Hne Hq]]; [| |assumption].
+        - cbn. destruct (m_cell st) as [b|] eqn:Hc; [|congruence]. exists b. auto.
+        - eapply H2; eassumption. }
+      split; [assumption|]. split.
+      { intros j q Hq Hh. apply nth_set_cases in Hq as [[<- ->]|[Hne Hq]]; [discriminate| |assumption]. eauto. }
+      split.
+      { intros j k q q' Hq Hq' Hh Hh'.
+        apply nth_set_cases in Hq as [[<- ->]|[Hne Hq]]; [discriminate| |assumption].
+        apply nth_set_cases in Hq' as [[<- ->]|[Hne' Hq']]; [discriminate| |assumption].
+        eapply H5; eassumption. }
+      { intros Hl. destruct (H6 Hl) as [j [q [Hq Hh]]]. exists j, q. split; [|assumption].
+        rewrite nth_error_set_nth_neq; [assumption|]. intros <-. rewrite Hp in Hq. inversion Hq; subst. discriminate. }
+    - discriminate.
   Qed.
 
   Lemma mrun_inv sched : forall st, memo_inv st -> memo_inv (mrun vals st sched).
@@ -620,9 +700,12 @@ Section Memo.
 
   Lemma minit_inv cell : (forall b, cell = Some b -> P b) -> memo_inv (minit cell n).
   Proof.
-    intros H. split; [exact H|]. split; cbn [minit m_pcs m_cell].
-    - intros i p Hp. apply nth_error_In in Hp. apply repeat_spec in Hp. subst. exact I.
-    - apply repeat_length.
+    intros H. unfold memo_inv, minit; cbn [m_pcs m_cell m_lock].
+    assert (Hall : forall i p, nth_error (repeat PStart n) i = Some p -> p = PStart).
+    { intros i p Hp. apply nth_error_In in Hp. apply repeat_spec in Hp. assumption. }
+    split; [exact H|]. split; [intros i p Hp; rewrite (Hall _ _ Hp); exact I|].
+    split; [apply repeat_length|]. split; [intros i p Hp Hh; rewrite (Hall _ _ Hp) in Hh; discriminate|].
+    split; [intros i j p q Hp _ Hh; rewrite (Hall _ _ Hp) in Hh; discriminate|discriminate].
   Qed.
 
   Theorem memo_invariant_l cell sched :
@@ -634,71 +717,94 @@ Section Memo.
     intros H st. destruct (mrun_inv sched _ (minit_inv cell H)) as [H1 [H2 _]].
     split; [exact H1|]. intros i r Hr. apply (H2 _ _ Hr).
   Qed.
+
+  (** written once: under the invariant a filled cell never changes *)
+  Lemma mstep_cell_stable st i st' b : memo_inv st -> m_cell st = Some b -> mstep vals st i = Some st' -> m_cell st' = Some b.
+  Proof.
+    intros [_ [_ [_ [H4 _]]]] Hc Hs. unfold mstep in Hs.
+    destruct (nth_error (m_pcs st) i) as [[| |buf| |r]|] eqn:Hp; try discriminate.
+    - rewrite Hc in Hs. inversion Hs; subst st'; reflexivity.
+    - inversion Hs; subst st'; exact Hc.
+    - destruct (H4 _ _ Hp eq_refl) as [_ Hx]. congruence.
+    - inversion Hs; subst st'; exact Hc.
+  Qed.
+  Lemma mrun_cell_stable sched : forall st b, memo_inv st -> m_cell st = Some b -> m_cell (mrun vals st sched) = Some b.
+  Proof.
+    induction sched as [|i r IH]; intros st b Hinv H; cbn [mrun]; [assumption|].
+    destruct (mstep vals st i) as [st'|] eqn:Hs; [|apply IH; assumption].
+    apply IH; [eapply mstep_inv; eassumption|eapply mstep_cell_stable; eassumption].
+  Qed.
+  Lemma mrun_app sched1 : forall sched2 st, mrun vals st (sched1 ++ sched2) = mrun vals (mrun vals st sched1) sched2.
+  Proof. induction sched1 as [|i r IH]; intros sched2 st; cbn [mrun app]; [reflexivity|apply IH]. Qed.
+
+  (** never stuck: some task that has not returned can move *)
+  Lemma memo_progress_l st :
+    memo_inv st -> forallb pc_done (m_pcs st) = false -> exists i st', mstep vals st i = Some st'.
+  Proof.
+    intros [_ [_ [_ [H4 [_ H6]]]]] Hnd.
+    destruct (m_lock st) eqn:Hl.
+    - destruct (H6 eq_refl) as [i [p [Hp Hh]]]. exists i. unfold mstep. rewrite Hp.
+      destruct p; try discriminate; eexists; reflexivity.
+    - assert (Hex : exists i p, nth_error (m_pcs st) i = Some p /\ pc_done p = false).
+      { clear - Hnd. induction (m_pcs st) as [|q l IH]; [discriminate|]. cbn [forallb] in Hnd.
+        destruct (pc_done q) eqn:Hq.
+        - cbn [andb] in Hnd. destruct (IH Hnd) as [i [p [Hp Hd]]]. exists (S i), p. auto.
+        - exists O, q. auto. }
+      destruct Hex as [i [p [Hp Hd]]]. exists i. unfold mstep. rewrite Hp, Hl.
+      destruct p; try discriminate; try (eexists; reflexivity).
+      destruct (m_cell st); eexists; reflexivity.
+  Qed.
 End Memo.
 
-(** written once: a filled cell never changes *)
-Lemma mstep_cell_stable vals st i st' b : m_cell st = Some b -> mstep vals st i = Some st' -> m_cell st' = Some b.
+Theorem memo_write_once_l vals n cell sched1 sched2 b :
+  m_cell (mrun vals (minit cell n) sched1) = Some b -> m_cell (mrun vals (minit cell n) (sched1 ++ sched2)) = Some b.
 Proof.
-  intros Hc Hs. unfold mstep in Hs. destruct (nth_error (m_pcs st) i) as [[| |buf| |r]|]; inversion Hs; subst; cbn [m_cell]; auto.
-  rewrite Hc. reflexivity.
-Qed.
-Theorem memo_write_once_l vals sched : forall st b, m_cell st = Some b -> m_cell (mrun vals st sched) = Some b.
-Proof.
-  induction sched as [|i r IH]; intros st b H; cbn [mrun]; [assumption|].
-  apply IH. destruct (mstep vals st i) as [st'|] eqn:Hs; [eapply mstep_cell_stable; eassumption|assumption].
+  intros H. rewrite mrun_app.
+  assert (Hinv : memo_inv (fun _ => True) n (mrun vals (minit cell n) sched1)).
+  { apply mrun_inv; [intros; exact I|]. apply minit_inv. intros; exact I. }
+  exact (mrun_cell_stable (fun _ => True) vals n (fun _ _ => I) sched2 _ _ Hinv H).
 Qed.
 
-(** progress: no task waits for another one; four turns complete a task *)
-Definition steps_left (p : pc) : nat :=
-  match p with PStart => 4 | PComputing => 3 | PComputed _ => 2 | PRet => 1 | PDone _ => 0 end.
-Definition left_of (st : mstate) (i : nat) : nat :=
-  match nth_error (m_pcs st) i with Some p => steps_left p | None => 0 end.
-
-Lemma mstep_left vals st j st' i :
-  mstep vals st j = Some st' ->
-  if Nat.eq_dec j i then (left_of st' i < left_of st i)%nat else left_of st' i = left_of st i.
+(** every step that is taken uses up one of the at most 4 steps of its task *)
+Lemma total_left_set_nth i p l q :
+  nth_error l i = Some q ->
+  (fold_right (fun p acc => (steps_left p + acc)%nat) O (set_nth i p l) + steps_left q =
+   fold_right (fun p acc => (steps_left p + acc)%nat) O l + steps_left p)%nat.
 Proof.
-  intros Hs. unfold mstep in Hs. destruct (nth_error (m_pcs st) j) as [p|] eqn:Hp; [|discriminate].
-  assert (Hj : (j < length (m_pcs st))%nat) by (apply nth_error_Some; congruence).
-  destruct (Nat.eq_dec j i) as [<-|Hne]; unfold left_of.
-  - rewrite Hp. destruct p as [| |buf| |r]; inversion Hs; subst; cbn [m_pcs];
-      rewrite nth_error_set_nth_eq by assumption; cbn [steps_left]; try lia.
-    destruct (m_cell st); cbn [steps_left]; lia.
-  - destruct p as [| |buf| |r]; inversion Hs; subst; cbn [m_pcs];
-      rewrite nth_error_set_nth_neq by assumption; reflexivity.
+  revert i; induction l as [|x l IH]; intros [|i] H; cbn [nth_error] in H; try discriminate.
+  - inversion H; subst. cbn [set_nth fold_right]. lia.
+  - cbn [set_nth fold_right]. specialize (IH _ H). lia.
 Qed.
-Lemma mstep_none_left vals st i : mstep vals st i = None -> left_of st i = 0%nat.
+Theorem memo_step_decreases_l vals st i st' : mstep vals st i = Some st' -> (total_left st' < total_left st)%nat.
 Proof.
-  unfold mstep, left_of. destruct (nth_error (m_pcs st) i) as [[| |buf| |r]|]; try discriminate; reflexivity.
-Qed.
-
-Lemma mrun_left vals sched : forall st i,
-  (left_of (mrun vals st sched) i <= left_of st i - count_occ Nat.eq_dec sched i)%nat.
-Proof.
-  induction sched as [|j r IH]; intros st i; cbn [mrun count_occ]; [lia|].
-  destruct (mstep vals st j) as [st'|] eqn:Hs.
-  - pose proof (mstep_left _ _ _ _ i Hs) as Hl. specialize (IH st' i).
-    destruct (Nat.eq_dec j i); lia.
-  - specialize (IH st i). destruct (Nat.eq_dec j i) as [<-|]; [|assumption].
-    apply mstep_none_left in Hs. lia.
+  unfold mstep, total_left. destruct (nth_error (m_pcs st) i) as [p|] eqn:Hp; [|discriminate].
+  destruct p as [| |buf| |r]; intros Hs.
+  - destruct (m_cell st).
+    + inversion Hs; subst; cbn [m_pcs]. pose proof (total_left_set_nth i PRet _ _ Hp). cbn [steps_left] in *. lia.
+    + destruct (m_lock st); [discriminate|]. inversion Hs; subst; cbn [m_pcs].
+      pose proof (total_left_set_nth i PComputing _ _ Hp). cbn [steps_left] in *. lia.
+  - inversion Hs; subst; cbn [m_pcs]. pose proof (total_left_set_nth i (PComputed (nth i vals [])) _ _ Hp). cbn [steps_left] in *. lia.
+  - inversion Hs; subst; cbn [m_pcs]. pose proof (total_left_set_nth i PRet _ _ Hp). cbn [steps_left] in *. lia.
+  - inversion Hs; subst; cbn [m_pcs].
+    pose proof (total_left_set_nth i (PDone (match m_cell st with Some b => Ok b | None => Panic end)) _ _ Hp). cbn [steps_left] in *. lia.
+  - discriminate.
 Qed.
 
+(** no deadlock and termination: after any schedule either every task has returned, or some task can move — and
+    every move uses up one of the at most 4n steps there are *)
 Theorem memo_completes_l vals cell n sched :
-  (forall i, (i < n)%nat -> (4 <= count_occ Nat.eq_dec sched i)%nat) ->
-  forallb pc_done (m_pcs (mrun vals (minit cell n) sched)) = true.
+  let st := mrun vals (minit cell n) sched in
+  (total_left (minit cell n) = 4 * n)%nat /\
+  (forallb pc_done (m_pcs st) = true \/
+   exists i st', mstep vals st i = Some st' /\ (total_left st' < total_left st)%nat).
 Proof.
-  intros Hfair. apply forallb_forall. intros p Hin. apply In_nth_error in Hin as [i Hi].
-  assert (Hlen : forall s st, length (m_pcs (mrun vals st s)) = length (m_pcs st)).
-  { induction s as [|j r IH]; intros st; cbn [mrun]; [reflexivity|]. rewrite IH.
-    destruct (mstep vals st j) as [st'|] eqn:Hs; [|reflexivity]. unfold mstep in Hs.
-    destruct (nth_error (m_pcs st) j) as [[| |buf| |r0]|]; inversion Hs; subst; cbn [m_pcs]; apply set_nth_length. }
-  assert (Hlt : (i < n)%nat).
-  { assert (i < length (m_pcs (mrun vals (minit cell n) sched)))%nat by (apply nth_error_Some; congruence).
-    rewrite Hlen in H. cbn [minit m_pcs] in H. rewrite repeat_length in H. assumption. }
-  pose proof (mrun_left vals sched (minit cell n) i) as Hl. specialize (Hfair i Hlt).
-  assert (H0 : left_of (minit cell n) i = 4%nat).
-  { unfold left_of, minit. cbn [m_pcs]. destruct (nth_error (repeat PStart n) i) as [q|] eqn:Hq.
-    - apply nth_error_In, repeat_spec in Hq. subst. reflexivity.
-    - apply nth_error_None in Hq. rewrite repeat_length in Hq. lia. }
-  unfold left_of in Hl at 1. rewrite Hi in Hl. destruct p; cbn [steps_left] in Hl; try lia. reflexivity.
+  intros st. split.
+  { unfold total_left, minit; cbn [m_pcs]. clear st. induction n as [|k IH]; [reflexivity|].
+    change (repeat PStart (S k)) with (PStart :: repeat PStart k). cbn [fold_right steps_left].
+    rewrite IH. lia. }
+  destruct (forallb pc_done (m_pcs st)) eqn:Hd; [left; reflexivity|right].
+  assert (Hinv : memo_inv (fun _ => True) n st).
+  { apply mrun_inv; [intros; exact I|]. apply minit_inv. intros; exact I. }
+  destruct (memo_progress_l (fun _ => True) vals n st Hinv Hd) as [i [st' Hs]].
+  exists i, st'. split; [assumption|]. eapply memo_step_decreases_l. eassumption.
 Qed.
